@@ -490,6 +490,10 @@ class Engine(object):
         if kind == 'bool':
             self.path.heap[attr] = z3.Store(self.heap_array(attr), ref.t, self.as_bool(value))
             return
+        if kind == 'truth':
+            t = self.truthy(value)
+            self.path.heap[attr] = z3.Store(self.heap_array(attr), ref.t, z3.BoolVal(t) if isinstance(t, bool) else t)
+            return
         if isinstance(kind, tuple) and kind[0] == 'optref':
             if value is None:
                 self.path.heap[attr + '#none'] = z3.Store(self.heap_array(attr + '#none'), ref.t, z3.BoolVal(True))
